@@ -367,7 +367,7 @@ func genBridge(rng *rand.Rand) *script {
 				md.reorderN--
 			}
 			// queue length is tracked only loosely here (ticks deliver): offsets for Drop are chosen right after a known state
-		case k < 58 && md.reorderN == 0 && md.filter == 0:
+		case k < 58 && md.reorderN == 0: // also while a filter is installed: the window counts every write, filtered or not
 			nn := 1 + rng.Intn(4)
 			s.Ops = append(s.Ops, op{K: "dropnext", D: d, N: nn})
 			md.dropN = nn
@@ -377,7 +377,7 @@ func genBridge(rng *rand.Rand) *script {
 			md.reorderN = nn
 		case k < 76:
 			s.Ops = append(s.Ops, op{K: "reorder", D: d})
-		case k < 82 && md.reorderN == 0 && md.dropN == 0:
+		case k < 82 && md.reorderN == 0:
 			f := rng.Intn(3)
 			s.Ops = append(s.Ops, op{K: "filter", D: d, N: f})
 			md.filter = f
@@ -402,7 +402,7 @@ func main() {
 	flag.Parse()
 	r := res.New("C18")
 	r.Rule = "generated scripts; dpipe: Write/Read/Close on both ends against a per-direction FIFO model (reads cut to the slice, whole message consumed, closing one end leaves the other usable); Bridge: writes in both directions interleaved with DropNextNWrites, ReorderNextNWrites (repeated, n=1..5), Drop, Reorder, Filter, Tick, Process against a per-direction {queue, dropN, reorderN, stash, filter} model, reader goroutines on both endpoints log what arrives, after Process the logs must equal the model's delivery lists; distinct = script shapes + reorder batch sizes per direction"
-	r.Assumptions = []string{"scripts keep at most one of drop-next / reorder-next / filter active per direction (their precedence is not defined by the property)", "Drop offsets lie inside the queue; Reorder only asserted with >= 2 queued"}
+	r.Assumptions = []string{"a reorder-next window is never open together with a filter or a drop-next window in the same direction (whether a stashed message is subject to the filter is not defined by the property); a drop-next window and a filter may be active together: the window counts every write, and a message is delivered iff it is neither in the window nor refused by the filter", "Drop offsets lie inside the queue; Reorder only asserted with >= 2 queued"}
 	run := func(s *script) (k string, d string, at int) {
 		defer func() {
 			if p := recover(); p != nil {
